@@ -268,6 +268,7 @@ pub fn dispatch(args: &Args) -> i32 {
         "C07" => crate::extra::c07(args),
         "C11" => crate::extra::c11(args),
         "replay" => crate::extra::replay(args),
+        "floatop" => crate::floatop::run(args),
         other => {
             eprintln!("unknown command {other}");
             64
